@@ -140,9 +140,14 @@ impl Circuit {
                 return Err(CircuitError::InvalidInst(i));
             }
             match inst.op {
-                Op::Input(_) => {
+                Op::Input(Input { party, input }) => {
                     if i != inst.out.0 as usize {
                         return Err(CircuitError::InvalidInput(i, *inst));
+                    }
+                    // The party and the input bit must exist, `eval` uses them as indices:
+                    match self.input_regs.get(party as usize) {
+                        Some(&input_bits) if (input as usize) < input_bits => {}
+                        _ => return Err(CircuitError::InvalidInput(i, *inst)),
                     }
                 }
                 Op::Xor(Xor(x, y)) | Op::And(And(x, y)) => {
